@@ -216,6 +216,7 @@ class Check(PropertyCheck):
         fails = self.oracle_runs(self.run_cases())
         n = self.scale(1500, 25000) * boost
         texts = [gen.random_diagram(self.rng, 28, 10) for _ in range(n)] + gen.bundled_blocks()
+        texts += [gen.zoo(self.rng) for _ in range(n // 4)]
         fails += self.oracle_pairs(texts)
         if fails and "run" not in fails[0].case:
             fails = [self.shrink(fails[0])] + fails[1:]
